@@ -130,6 +130,7 @@ pub struct Translator {
     pub file_is_dispatch: bool,
     pub file_uses_supported_regs: bool,
     pub frame_items: Vec<(String, usize)>,
+    pub dry_run: bool,
 }
 
 pub const REG_NAMES: &[&str] = &[
@@ -163,6 +164,7 @@ impl Translator {
             file_is_dispatch: false,
             file_uses_supported_regs: false,
             frame_items: Vec::new(),
+            dry_run: false,
         };
         t.hand_sigs();
         t
